@@ -120,7 +120,8 @@ func (f *FibStrategyHashTable) insertEntryEnc(name enc.Name) *baseFibStrategyEnt
 
 	if _, ok := f.realTable[nameHash]; !ok {
 		rtEntry := new(baseFibStrategyEntry)
-		rtEntry.name = name
+		// The entry outlives this call: keep a copy, not the caller's slice (as the name tree does)
+		rtEntry.name = name.Clone()
 		f.realTable[nameHash] = rtEntry
 	}
 
@@ -377,7 +378,7 @@ func (f *FibStrategyHashTable) SetStrategyEnc(name enc.Name, strategy enc.Name) 
 	defer f.fibStrategyRWMutex.Unlock()
 
 	realEntry := f.insertEntryEnc(name)
-	realEntry.strategy = strategy
+	realEntry.strategy = strategy.Clone()
 }
 
 // UnsetStrategy unsets the strategy for the specified prefix.
